@@ -581,9 +581,31 @@ def _memo(ctx, nz):
             if isinstance(sub, ast.Assign) and len(sub.targets) == 1 and \
                     isinstance(sub.targets[0], ast.Tuple) and \
                     len(sub.targets[0].elts) == 2 and \
-                    isinstance(sub.value, ast.Call) and \
-                    K.is_meth(sub.value, '_shape', 'shape'):
+                    isinstance(sub.value, ast.Call) and (
+                        K.is_meth(sub.value, '_shape', 'shape') or (
+                            # the key helper of the tracker, whatever it
+                            # is called: (key, demand) = self.<helper>(app)
+                            K.recv_text(sub.value) == 'self' and
+                            tracker.methods.get(
+                                sub.value.func.attr) is not None)):
                 demands.add(N.txt(sub.targets[0].elts[1]))
+        # ... also when the key helper was spliced in by the view: its
+        # answer is a pair held in a local and unpacked afterwards
+        pairs = {}
+        for sub in K.walk_no_nested(func.node):
+            if isinstance(sub, ast.Assign) and len(sub.targets) == 1 and \
+                    isinstance(sub.targets[0], ast.Name) and \
+                    isinstance(sub.value, ast.Tuple) and \
+                    len(sub.value.elts) == 2:
+                pairs[sub.targets[0].id] = sub.value.elts
+        for sub in K.walk_no_nested(func.node):
+            if isinstance(sub, ast.Assign) and len(sub.targets) == 1 and \
+                    isinstance(sub.targets[0], ast.Tuple) and \
+                    len(sub.targets[0].elts) == 2 and \
+                    isinstance(sub.value, ast.Name) and \
+                    sub.value.id in pairs:
+                demands.add(N.txt(sub.targets[0].elts[1]))
+                demands.add(N.txt(pairs[sub.value.id][1]))
         graph = ctx.cfg(func)
         env = K.func_env(func)
         nzf = N.Normaliser(nz.helpers, env=env)
@@ -597,6 +619,12 @@ def _memo(ctx, nz):
                            "'not feasible' only under ALL(demand >= "
                            'recorded)')
                 elif val is not None and not isinstance(val, ast.Constant):
+                    # a named boolean returned (or its negation) is the
+                    # condition it names
+                    val = N.subst(val, dict(
+                        (k, v) for k, v in env.items()
+                        if isinstance(v, (ast.BoolOp, ast.Compare,
+                                          ast.UnaryOp, ast.Call))))
                     atoms = K._outcome_atoms(nzf, val, False)
                     if not any(a.kind == 'vec' for a in atoms) and not \
                             any(a.kind == 'vec' for a in
@@ -614,7 +642,8 @@ def _memo(ctx, nz):
                     and isinstance(node.ast.targets[0], ast.Subscript) and \
                     'recorder' in N.txt(node.ast.targets[0].value):
                 count += 1
-                plain = is_demand(K.rtxt(func, node.ast.value))
+                plain = is_demand(K.rtxt(func, node.ast.value)) or \
+                    is_demand(N.txt(node.ast.value))
                 ok = K.guarded_by_atoms(ctx, func, graph, node,
                                         smaller_or_new, nzf)
                 ctx.ob('C02.3', func, node, plain and ok,
